@@ -11,6 +11,7 @@ import (
 	"github.com/thanos-community/promql-engine/execution/model"
 	"github.com/thanos-community/promql-engine/query"
 	"github.com/thanos-community/promql-engine/zzverif/stub"
+	"github.com/thanos-community/promql-engine/zzverif/stubsel"
 	"github.com/thanos-community/promql-engine/zzverif/sym"
 )
 
@@ -47,7 +48,7 @@ func VerifH02b() {
 		stub.NewSeries(stub.Labels("__name__", "m", "a", "x"), stub.SymSeries("s0", n0, verifR)),
 		stub.NewSeries(stub.Labels("__name__", "m", "a", "y"), stub.SymSeries("s1", n1, verifR)),
 	}
-	sel := &stub.Selector{Ser: ser}
+	sel := &stubsel.Selector{Ser: ser}
 	o := NewVectorSelector(model.NewVectorPool(batch), sel, opts, sym.DurMs(off), 0, 1)
 	ctx, cancel := context.WithCancel(context.Background())
 	defer cancel()
@@ -117,7 +118,7 @@ func VerifH03a() {
 	n := sym.IntRange("n", 0, sym.Tier(3, 4))
 	samples := stub.SymSeries("s", n, verifR)
 	ser := []*stub.Series{stub.NewSeries(stub.Labels("__name__", "m", "a", "x"), samples)}
-	sel := &stub.Selector{Ser: ser}
+	sel := &stubsel.Selector{Ser: ser}
 	var windows [][]promql.Point
 	var stepTimes []int64
 	call := func(f function.FunctionArgs) promql.Sample {
